@@ -42,7 +42,7 @@ def run(c):
                 "filters are an oracle here (C02/C17 are about them); the oracle evaluates Deadcode and Const independently"]
 
     c.build_theories()
-    c.require_theories("Ast/*.v", "Engine/Dispatch.v")
+    c.require_theories("Ast/*.v", "Engine/Dispatch.v", "Engine/RunState.v", "Engine/MatchEnv.v")
     inst_ok = False
     if walkerlib.go2coq(c, "walktables", "Gen_WalkTables.v"):
         inst_ok = walkerlib.prepare(c, [], extra_gen=["Gen_WalkTables.v"], extra_tmpl=["C01/Inst_Dispatch.v", "C01/C01.v"])
